@@ -12,7 +12,10 @@ RULE = ("schemas whose root carries unevaluatedProperties / unevaluatedItems nex
         "applicators allOf, anyOf, oneOf, not, if/then/else, dependentSchemas, $ref, $dynamicRef around properties, patternProperties, "
         "additionalProperties, prefixItems, items, contains and nested unevaluated*; instances: every subset of 4 names / arrays of "
         "0..4 items from a pool of 3 values, so that an extra property / item is the only possible cause of failure. The official "
-        "unevaluated* cases run first. Non-trivial: >= 1 in-place applicator; distinct = operation text")
+        "unevaluated* cases run first. Also: deep evaluation (producers 25..45 single-branch in-place applications / $ref hops below the "
+        "unevaluated* keyword; the closed recursive tree on chains of 10..22 nodes; 3 %) and dynamic extension points ($dynamicRef to a "
+        "$dynamicAnchor overridden by 1..2 extension resources, each embedded or Loader-supplied, the override an anyOf / oneOf with "
+        "overlapping branches; 6 %). Non-trivial: >= 1 in-place applicator; distinct = operation text")
 ITEMS = [Num("1"), "a", True]
 
 
@@ -114,9 +117,232 @@ def long_case(rng):
     return {"op": "validate", "args": {"schema": root, "insts": insts}, "meta": {"kw": 4, "kind7": "arr", "long": True}}
 
 
+def _insts(rng, kind, n=8):
+    insts = []
+    for _ in range(n):
+        if kind == "obj":
+            ks = rng.sample(gs.NAMES, rng.randint(0, 4))
+            insts.append(Obj([(k, rng.choice([Num("1"), "a", None])) for k in ks]))
+        else:
+            insts.append([rng.choice(ITEMS) for _ in range(rng.randint(0, 4))])
+    insts.append(rng.choice([Num("1"), "a", None]))
+    return insts
+
+
+def keep(rng, sch, defs):
+    """sch behind ONE in-place application that hands all annotations of sch on (verdict and evaluated sets unchanged)."""
+    r = rng.random()
+    if r < 0.55:
+        return Obj([("allOf", [sch])])
+    if r < 0.63:
+        return Obj([("allOf", [True, sch])])
+    if r < 0.71:
+        return Obj([("anyOf", [sch])])
+    if r < 0.77:
+        return Obj([("oneOf", [sch])])
+    if r < 0.84:
+        return Obj([("if", True), ("then", sch)])
+    if r < 0.9:
+        return Obj([("if", False), ("else", sch)])
+    name = "k%d" % len(defs)
+    defs.append((name, sch))
+    return Obj([("$ref", "#/$defs/" + name)])
+
+
+def deep_case(rng):
+    """DEEP evaluation at one instance location: the annotation producers sit 25..45 in-place applications below the unevaluated*
+    keyword that must see them — (nest) a tower of single-branch allOf / anyOf / oneOf / if-then / $ref wrappers, with a second
+    producer half-way up; (chain) a chain of 30..45 $defs entries each a $ref to the next; (tree) the closed recursive tree node
+    {allOf:[$ref base], properties:{child: $ref node}, unevaluatedProperties:false} (or its array twin) on a chain of 10..22 nested nodes,
+    where instance nesting and schema nesting add up. Width stays 1, so the cost is linear in the depth."""
+    shape = rng.choice(["nest", "nest", "chain", "tree", "tree"])
+    kind = "obj" if rng.random() < 0.55 else "arr"
+    kw = "unevaluatedProperties" if kind == "obj" else "unevaluatedItems"
+    uv = rng.choice([False, False, False, Obj([("type", "string")]), Obj([("const", "a")])])
+    leaf = leaf_obj if kind == "obj" else leaf_arr
+    defs = []
+
+    def producer():
+        for _ in range(5):
+            p = leaf(rng)
+            if isinstance(p, Obj) and p.get(kw) is None:
+                return p
+        return Obj([("properties", Obj([("a", True)]))]) if kind == "obj" else Obj([("prefixItems", [True])])
+
+    if shape == "nest":
+        depth = rng.randint(25, 45)
+        mid = rng.randint(1, depth - 1)
+        s = producer()
+        for lv in range(depth):
+            s = keep(rng, s, defs)
+            if lv == mid and isinstance(s, Obj):
+                # a second producer part-way up, in the same schema object as the wrapper
+                s = Obj(s.kvs + [kv for kv in producer().kvs if kv[0] not in s.keys()])
+        root = Obj(list(s.kvs))
+        root.set(kw, uv)
+        if defs:
+            root.set("$defs", Obj(defs))
+        return {"op": "validate", "args": {"schema": root, "insts": _insts(rng, kind)},
+                "meta": {"kw": 4, "kind7": kind, "deep": shape, "depth": depth}}
+    if shape == "chain":
+        n = rng.randint(30, 45)
+        extra = rng.randint(1, n - 1)
+        for i in range(n):
+            d = Obj([("$ref", "#/$defs/d%d" % (i + 1))])
+            if i == extra:
+                d = Obj(d.kvs + [kv for kv in producer().kvs])
+            defs.append(("d%d" % i, d))
+        defs.append(("d%d" % n, producer()))
+        rng.shuffle(defs)
+        root = Obj([("$ref", "#/$defs/d0"), (kw, uv), ("$defs", Obj(defs))])
+        if rng.random() < 0.3:
+            root = Obj([("allOf", [Obj([("$ref", "#/$defs/d0")])]), (kw, uv), ("$defs", Obj(defs))])
+        return {"op": "validate", "args": {"schema": root, "insts": _insts(rng, kind)},
+                "meta": {"kw": 4, "kind7": kind, "deep": shape, "depth": n}}
+    # tree
+    base_ref = Obj([("$ref", "#/$defs/base")])
+    via = rng.choice([Obj([("allOf", [base_ref])]), Obj([("allOf", [base_ref])]), base_ref, Obj([("anyOf", [base_ref])]),
+                      Obj([("allOf", [Obj([("allOf", [base_ref])])])])])
+    if kind == "obj":
+        base = Obj([("properties", Obj([("name", Obj([("type", "string")]))]))])
+        node = Obj(via.kvs + [("properties", Obj([("child", Obj([("$ref", "#/$defs/node")]))])), (kw, False)])
+
+        def mk(depth, bad):
+            t = None
+            for i in range(depth):
+                nd = Obj([("name", "n")])
+                if i == bad:
+                    nd.kvs.append(("zz", Num("1")))
+                if t is not None:
+                    nd.kvs.append(("child", t))
+                t = nd
+            return t
+    else:
+        base = Obj([("prefixItems", [Obj([("type", "string")])])])
+        node = Obj(via.kvs + [("items", Obj([("$ref", "#/$defs/node")])), (kw, False)])
+        if rng.random() < 0.5:
+            # the child is evaluated by the base too: nothing is left to items
+            base = Obj([("prefixItems", [Obj([("type", "string")]), Obj([("$ref", "#/$defs/node")])])])
+            node = Obj(via.kvs + [(kw, False)])
+
+        def mk(depth, bad):
+            t = None
+            for i in range(depth):
+                nd = ["n"]
+                if t is not None:
+                    nd.append(t)
+                if i == bad:
+                    if t is None:
+                        nd.append(["n"])
+                    nd.append(Num("1"))
+                t = nd
+            return t
+    root = Obj([("$ref", "#/$defs/node"), ("$defs", Obj([("base", base), ("node", node)]))])
+    insts = []
+    for _ in range(4):
+        d = rng.randint(10, 22)
+        insts.append(mk(d, -1))
+        if rng.random() < 0.5:
+            insts.append(mk(d, rng.randrange(d)))
+    return {"op": "validate", "args": {"schema": root, "insts": insts}, "meta": {"kw": 4, "kind7": kind, "deep": shape}}
+
+
+U = "http://x.test/u/"
+
+
+def ext_case(rng, tier):
+    """A dynamic EXTENSION POINT across resources: a base resource B applies {"$dynamicRef": "#ext"} in place (its own $defs/ext is the
+    default), one or two extension resources E1 (E2) each `$ref` the next one in place and override $defs/ext with a body of in-place
+    applicators (biased to anyOf / oneOf whose branches overlap, so that a LATER matching branch is the only one evaluating some
+    property / item); unevaluated* encloses the whole thing from B, from an extension or from the root. Every resource is embedded in the
+    root document or supplied by the Loader (the outer k of the chain embedded, the rest Loader documents; B possibly embedded in E1's
+    document; the outermost extension possibly the root document itself) — a Loader document only refers to Loader documents."""
+    kind = "obj" if rng.random() < 0.6 else "arr"
+    kw = "unevaluatedProperties" if kind == "obj" else "unevaluatedItems"
+    leaf = leaf_obj if kind == "obj" else leaf_arr
+    uv = rng.choice([False, False, False, Obj([("type", "string")]), Obj([("const", "a")])])
+    n_ext = rng.choice([1, 1, 2])
+    depth = rng.choice([1, 1, 2, 3 if tier == "thorough" else 2])
+
+    def anchored(body, dyn=True):
+        if not isinstance(body, Obj):
+            body = Obj([("allOf", [body])])
+        return Obj([("$dynamicAnchor" if dyn else "$anchor", "ext")] + [kv for kv in body.kvs if kv[0] not in ("$dynamicAnchor", "$anchor")])
+
+    def ext_body(defs):
+        r = rng.random()
+        if r < 0.55:
+            return Obj([("anyOf", [inplace(rng, rng.choice([0, 0, depth - 1]), kind, defs) for _ in range(rng.randint(2, 3))])])
+        if r < 0.65:
+            return Obj([("oneOf", [inplace(rng, rng.choice([0, depth - 1]), kind, defs) for _ in range(rng.randint(2, 3))])])
+        if r < 0.75:
+            return Obj([("allOf", [Obj([("anyOf", [inplace(rng, 0, kind, defs) for _ in range(rng.randint(2, 3))])]), inplace(rng, depth - 1, kind, defs)])])
+        return inplace(rng, depth, kind, defs)
+
+    where = rng.choice(["B", "B", "top", "E", "root"])
+    # chain[0] is the outermost extension, chain[-1] is B
+    names = ["ext%d.json" % i for i in range(n_ext, 0, -1)] + ["base.json"]
+    bodies = []
+    for i, nm in enumerate(names):
+        defs = []
+        if nm == "base.json":
+            d = Obj([("$dynamicRef", rng.choice(["#ext", "#ext", "#ext", U + nm + "#ext"]))])
+            for _ in range(rng.choice([0, 0, 1, 2])):
+                d = keep(rng, d, defs)
+            b = Obj(list(d.kvs))
+            ext = anchored(rng.choice([leaf(rng), leaf(rng), True, Obj()]), dyn=rng.random() < 0.9)
+        else:
+            hop = Obj([("$ref", U + names[i + 1])])
+            for _ in range(rng.choice([0, 0, 1])):
+                hop = keep(rng, hop, defs)
+            b = Obj(list(hop.kvs))
+            ext = anchored(ext_body(defs), dyn=rng.random() < 0.9)
+        if (where == "B" and nm == "base.json") or (where == "top" and i == 0) or (where == "E" and i == len(names) - 2):
+            b.set(kw, uv)
+        b.set("$defs", Obj([("ext", ext)] + defs))
+        bodies.append(b)
+    root_is_top = where != "root" and rng.random() < 0.25
+    # the first `cut` resources of the chain live in the root document, the others are Loader documents
+    lo = 1 if root_is_top else 0
+    cut = lo if rng.random() < 0.5 else rng.randint(lo, len(names))
+    docs, embedded = [], []
+    b_in_e1 = cut <= len(names) - 2 and rng.random() < 0.2
+    for i, (nm, b) in enumerate(zip(names, bodies)):
+        if i == 0 and root_is_top:
+            continue
+        if i < cut or (b_in_e1 and nm == "base.json"):
+            embedded.append((i, Obj([("$id", U + nm)] + b.kvs)))
+        else:
+            docs.append([U + nm, Obj(([("$id", U + nm)] if rng.random() < 0.5 else []) + b.kvs)])
+    if root_is_top:
+        root = bodies[0]
+    else:
+        top = Obj([("$ref", U + names[0])])
+        root = Obj(list((top if rng.random() < 0.6 else Obj([("allOf", [top])])).kvs))
+        if where == "root" or rng.random() < 0.1:
+            root.set(kw, uv)
+    for i, eb in embedded:
+        host = root
+        if i >= cut:
+            # B inside the Loader document of E1
+            host = [dd[1] for dd in docs if dd[0] == U + names[-2]][0]
+        hd = host.get("$defs") or Obj()
+        hd.kvs.append(("r_" + names[i].split(".")[0], eb))
+        host.set("$defs", hd)
+    rng.shuffle(docs)
+    return {"op": "validate", "args": {"schema": root, "docs": docs, "insts": _insts(rng, kind), "loader": True},
+            "meta": {"kw": 4 + sum(gs.count_keywords(b) for b in bodies), "kind7": kind, "ext": True, "cut": cut, "n_ext": n_ext,
+                     "where": where, "remote": bool(docs)}}
+
+
 def gen_case(rng, tier):
-    if rng.random() < 0.05:
+    r0 = rng.random()
+    if r0 < 0.05:
         return long_case(rng)
+    if r0 < 0.08:
+        return deep_case(rng)
+    if r0 < 0.14:
+        return ext_case(rng, tier)
     kind = "obj" if rng.random() < 0.55 else "arr"
     defs = []
     depth = rng.choice([1, 2, 3, 4 if tier == "thorough" else 3])
